@@ -28,7 +28,7 @@ META = {
         'packed, planar and Tandy-6 sprite layouts): each PSET / solid LINE / LINE,B / LINE,BF is executed on a randomly patterned '
         'unclipped screen and the set of pixels it draws is measured exactly (two passes in different colours) and compared with the '
         'statement\'s clauses; GET+PUT PSET and double PUT XOR are checked for sprites 1..70 pixels wide (all residues mod 8) and '
-        '1..40 high. A seed-independent core enumerates all 225 displacement vectors with |dx|,|dy| <= 7, the screen corners and edges, '
+        '1..40 high. Besides page 0 the oracle runs on non-zero active pages (active = or <> visible) reached by SCREEN m,,a,v and by MODE changes that keep the page numbers (SCREEN other,,a,v : SCREEN m,,a,v), always reading the buffer of the page the last SCREEN statement made active. A seed-independent core enumerates all 225 displacement vectors with |dx|,|dy| <= 7, the screen corners and edges, '
         'degenerate rectangles and every sprite width 1..18, 31..33, 63..65, 70 at 8 horizontal alignments.'),
     'level_note': (
         'The statement does not pin WHICH 8-connected path a line takes (rounding), nor default colours, styles or clipped cases: not tested. '
@@ -39,7 +39,7 @@ META = {
              'ran without error and (for sprites) covered at least one pixel; background contents differ for every case'),
     'design_ref': 'DESIGN.md section 4 C31',
     'assumptions': ['a statement repeated with another colour draws the same pixel set'],
-    'require_counters': {'any': ['pset_cases', 'line_cases', 'lines_steep', 'lines_shallow', 'lines_diagonal', 'lines_axis_parallel',
+    'require_counters': {'any': ['history_nonzero_page', 'history_mode_change_keeping_pages', 'history_active_ne_visible', 'pset_cases', 'line_cases', 'lines_steep', 'lines_shallow', 'lines_diagonal', 'lines_axis_parallel',
                                  'box_cases', 'boxfill_cases', 'getput_cases', 'xor_cases', 'xor_changed_seen',
                                  'sprite_width_not_multiple_of_8', 'bpp_1', 'bpp_2', 'bpp_4', 'point_matched']},
     'timeout': {'quick': 900, 'thorough': 3600},
@@ -125,11 +125,11 @@ class Ctx(object):
         case = {'mode': g.mode['label'], 'prim': 'PSET', 'xy': [x, y], 'colour': c, 'old': old}
         stmt = b'PSET(%d,%d),%d' % (x, y, c)
         if not self.run(stmt, 'pset', case):
-            res.case(('pset', g.mode['label'], x, y, c), nontrivial=False)
+            res.case(('pset', (g.mode['label'], g.apage, g.vpage), x, y, c), nontrivial=False)
             return
         s1 = g.active()
         d = gfx.diff_points(s0, s1, g.w, g.h, limit=5)
-        res.case(('pset', g.mode['label'], x, y, c, old))
+        res.case(('pset', (g.mode['label'], g.apage, g.vpage), x, y, c, old))
         res.count('pset_cases')
         if len(d) != 1:
             res.violation('pset:pixel-count', '%s: %s changed %d pixels %r' % (g.mode['label'], stmt.decode(), len(d), d[:4]), case)
@@ -155,9 +155,9 @@ class Ctx(object):
         fmt = b'LINE(%d,%d)-(%d,%d),%%d' % (p0[0], p0[1], p1[0], p1[1])
         d = self.drawn_set(fmt, 'line', rng, case)
         if d is None:
-            res.case(('line', g.mode['label'], p0, p1), nontrivial=False)
+            res.case(('line', (g.mode['label'], g.apage, g.vpage), p0, p1), nontrivial=False)
             return
-        res.case(('line', g.mode['label'], p0, p1, tuple(case['colours'])))
+        res.case(('line', (g.mode['label'], g.apage, g.vpage), p0, p1, tuple(case['colours'])))
         res.count('line_cases')
         dx, dy = abs(p1[0] - p0[0]), abs(p1[1] - p0[1])
         res.maxc('max_line_length', max(dx, dy) + 1)
@@ -219,10 +219,10 @@ class Ctx(object):
         if c_get or c_put1 or c_put2:
             # an error message was printed over the picture: nothing can be said about this case
             res.count('sprite_rejected')
-            res.case(('sprite', g.mode['label'], src, dst, xor), nontrivial=False)
+            res.case(('sprite', (g.mode['label'], g.apage, g.vpage), src, dst, xor), nontrivial=False)
             return
         s2 = g.active()
-        res.case(('sprite', g.mode['label'], src, dst, xor))
+        res.case(('sprite', (g.mode['label'], g.apage, g.vpage), src, dst, xor))
         res.count('xor_cases' if xor else 'getput_cases')
         if sw % 8:
             res.count('sprite_width_not_multiple_of_8')
@@ -245,8 +245,45 @@ class Ctx(object):
             res.sample(dict(case, width=sw, height=sh))
 
 
+def establish(g, rng, res, history=None):
+    """
+    Put the session into its mode through a history and draw the random background on the ACTIVE page.
+      'plain'   SCREEN m                       (page 0 active and visible)
+      'pages'   SCREEN m,,a,v                  (a >= 1)
+      'trip'    SCREEN other,,a,v : SCREEN m,,a,v   (a >= 1; a MODE change that keeps the page numbers,
+                                                named explicitly in both statements)
+    All pixel reads of the oracle use the buffer of the page the last SCREEN statement made active.
+    """
+    if history is None:
+        r = rng.random()
+        kind = 'plain' if (g.npages < 2 or r < 0.25) else 'pages' if r < 0.55 else 'trip'
+        ap = rng.randrange(1, g.npages) if g.npages > 1 else 0
+        vp = ap if rng.random() < 0.5 else rng.randrange(max(1, g.npages))
+        history = (kind, rng.choice(gfx.other_screens(g.mode)), ap, vp)
+    kind, other, ap, vp = history
+    if g.npages < 2:
+        kind = 'plain'
+    if kind == 'plain':
+        g.direct(b'VIEW:WINDOW')
+        g.enter_mode(0, 0)
+    elif kind == 'pages':
+        g.direct(b'VIEW:WINDOW')
+        g.enter_mode(ap, vp)
+        res.count('history_nonzero_page')
+    else:
+        if g.round_trip(other, ap, vp):
+            res.count('history_mode_change_keeping_pages')
+        else:
+            res.count('history_mode_change_rejected')
+        res.count('history_nonzero_page')
+    if g.apage != g.vpage:
+        res.count('history_active_ne_visible')
+    background(g, rng)
+    return history
+
+
 def background(g, rng):
-    g.direct(b'VIEW:WINDOW:CLS')
+    g.direct(b'VIEW:WINDOW:CLS:ERASE A%' if getattr(g, 'dimmed', False) else b'VIEW:WINDOW:CLS')
     stmts = []
     for i in range(30):
         xa, xb = sorted((rng.randrange(g.w), rng.randrange(g.w)))
@@ -260,6 +297,7 @@ def background(g, rng):
     for i in range(0, len(stmts), 6):
         g.direct(b':'.join(stmts[i:i + 6]))
     g.direct(b'DIM A%(4000)')
+    g.dimmed = True
 
 
 def rand_point(rng, g):
@@ -398,6 +436,34 @@ def directed(ctx):
         ctx.sprite(rng, (x0, y0, x0 + sw - 1, y0 + sh - 1), (x0, y0), xor=True)
 
 
+def directed_histories(ctx):
+    """Seed-independent: a reduced geometry table after every page / mode-change history."""
+    g, res = ctx.g, ctx.res
+    if g.npages < 2:
+        return
+    rng = random.Random('C31:directed-hist:%s' % g.mode['label'])
+    w, h = g.w, g.h
+    cx, cy = w // 2, h // 2
+    hist = [('pages', 0, 1, 1), ('pages', 0, 1, 0), ('pages', 0, g.npages - 1, g.npages - 1)]
+    for other in gfx.other_screens(g.mode):
+        hist += [('trip', other, 1, 1), ('trip', other, 1, 0)]
+    for hi in hist:
+        establish(g, rng, res, hi)
+        res.count('directed_histories')
+        for (x, y) in [(0, 0), (w - 1, h - 1), (cx, cy)]:
+            ctx.pset(rng, x, y)
+        for (dx, dy) in [(9, 0), (0, 9), (9, 9), (-9, 4), (4, -9), (-7, -3), (30, 11), (-11, 30)]:
+            ctx.line(rng, (cx, cy), (cx + dx, cy + dy))
+        ctx.line(rng, (0, 0), (w - 1, h - 1))
+        ctx.box(rng, (cx - 12, cy - 7), (cx + 12, cy + 7), False)
+        ctx.box(rng, (cx + 12, cy + 7), (cx - 12, cy - 7), True)
+        ctx.box(rng, (0, 0), (5, 4), True)
+        for sw in (5, 8, 13):
+            src = (40 + sw, 20, 40 + 2 * sw - 1, 24)
+            ctx.sprite(rng, src, (40 + sw, 20), xor=False)
+            ctx.sprite(rng, src, (70, 50), xor=True)
+
+
 def run_mode(spec, rng, res, label):
     m = gfx.MODE_BY_LABEL[label]
     phases = (['directed'] if spec.get('directed') else []) + ['random']
@@ -408,12 +474,16 @@ def run_mode(spec, rng, res, label):
             tries += 1
             try:
                 with gfx.GBox(m) as g:
-                    background(g, random.Random('%s:C31:bg:%s:%s' % (spec['seed'], label, spec.get('part', 0))))
+                    bg = random.Random('%s:C31:bg:%s:%s' % (spec['seed'], label, spec.get('part', 0)))
                     ctx = Ctx(g, res)
                     if phase == 'directed':
+                        background(g, bg)
                         directed(ctx)
+                        directed_histories(ctx)
                     else:
                         while done < spec['n']:
+                            if done % 150 == 0:
+                                establish(g, rng, res)
                             random_case(ctx, rng)
                             done += 1
                             if done % 200 == 0 and not g.validate_fast():
